@@ -323,6 +323,8 @@ class Skeletons(Stream):
                   "f(a,)", "a[b](c).d", "1.5e3 + 2", "1e-3", "0.5", ".5", "5.", "a and not b",
                   "not a and b", "not a == b", "not a in b"]:
             yield {"text": s, "kind": "edge"}
+        # tuples, parentheses, trailing commas (nesting depth and arity as Python gives them)
+        yield from tuple_payloads(rng, tier)
 
     def request(self, pl):
         toks = lex_tokens(pl["text"])
@@ -354,6 +356,8 @@ class Skeletons(Stream):
         return super().agree(model, impl, pl)
 
     def oracle(self, pl):
+        if "node" in pl:
+            return tuple_tree_oracle(pl)
         m = mismatch(pl["text"])
         if m is None:
             return None
@@ -408,6 +412,8 @@ class Importer(Stream):
             yield {"text": s}
         for _ in range(400 if tier == "quick" else 8000):
             yield {"text": rand_string(rng, rng.randint(1, 4))}
+        for pl in tuple_payloads(rng, tier):
+            yield {"text": pl["text"]}
 
     def run_impl(self, pl):
         return "(oracle-only)"
@@ -642,6 +648,447 @@ def probe_true_prefix():
 # }}}
 
 
+# {{{ the tuple family: nesting depth and arity of tuples, parentheses, trailing commas
+
+# A string of the family is the rendering of a small tree (JSON lists, so that payloads, replays and
+# the shrinker work on the structure and not on the text):
+#   ["n", name]                           a name / integer literal
+#   ["t", elems, trailing, parens]        a tuple display `e1, e2[,]` with or without its parentheses;
+#                                         no element: `()`; one element without trailing comma: the
+#                                         plain parenthesised group `(e)`
+#   ["call", fn, args, [[kw, v] …], trailing]     `f(e1, e2, k=v[,])`
+#   ["idx", aggregate, index]             `x[e]`; the index may be a tuple display WITHOUT parentheses
+#   ["if", then, cond, else]              `t if c else e`
+#   ["cmp", op, left, right]              `l == r`
+# Where Python's grammar needs them (a display as an element / operand, a conditional as an element
+# or operand, a comparison as an operand) the renderer adds plain parentheses, so every rendering is
+# a Python expression and the only commas an `else` branch meets are the ones listed in TF_ELSE.
+
+TF_ATOMS = ["a", "b", "c"]
+TF_FN = ["n", "f"]
+TF_AGG = ["n", "x"]
+#: conditionals whose else-branch is followed by a comma (the known `else` findings keep their keys)
+TF_ELSE = ["a if b else c, d", "(a if b else c, d)", "f(a if b else c, d)", "x[a if b else c, d]",
+           "(a, b) if c else d, a", "((a if b else c, d),)", "(a if b else c, d),"]
+
+
+def tf_render(n, ctx="top"):
+    """ctx: top / index (anything goes), elem (tuple element, call argument), operand"""
+    k = n[0]
+    if k == "n":
+        return n[1]
+    if k == "t":
+        _, elems, trailing, parens = n
+        inner = ", ".join(tf_render(e, "elem") for e in elems)
+        if trailing and elems:
+            inner += ","
+        if parens or not elems or ctx in ("elem", "operand"):
+            return "(" + inner + ")"
+        return inner
+    if k == "call":
+        _, fn, args, kws, trailing = n
+        parts = [tf_render(a, "elem") for a in args] + [f"{kw}={tf_render(v, 'elem')}" for kw, v in kws]
+        return tf_render(fn, "operand") + "(" + ", ".join(parts) + ("," if trailing and parts else "") + ")"
+    if k == "idx":
+        return tf_render(n[1], "operand") + "[" + tf_render(n[2], "index") + "]"
+    if k == "if":
+        s = (f"{tf_render(n[1], 'operand')} if {tf_render(n[2], 'operand')} "
+             f"else {tf_render(n[3], 'operand')}")
+        return "(" + s + ")" if ctx in ("elem", "operand") else s
+    if k == "cmp":
+        s = f"{tf_render(n[2], 'operand')} {n[1]} {tf_render(n[3], 'operand')}"
+        return "(" + s + ")" if ctx == "operand" else s
+    raise ValueError(k)
+
+
+def tf_children(n):
+    """(path step, child) of a node"""
+    k = n[0]
+    if k == "t":
+        return [((1, i), e) for i, e in enumerate(n[1])]
+    if k == "call":
+        return ([((1,), n[1])] + [((2, i), a) for i, a in enumerate(n[2])]
+                + [((3, i, 1), kv[1]) for i, kv in enumerate(n[3])])
+    if k == "idx":
+        return [((1,), n[1]), ((2,), n[2])]
+    if k == "if":
+        return [((1,), n[1]), ((2,), n[2]), ((3,), n[3])]
+    if k == "cmp":
+        return [((2,), n[2]), ((3,), n[3])]
+    return []
+
+
+def tf_walk(n):
+    yield n
+    for _, c in tf_children(n):
+        yield from tf_walk(c)
+
+
+def tf_map(n, fn):
+    """rebuild bottom-up: fn(node with mapped children)"""
+    import copy
+    n = copy.deepcopy(n)
+    for step, c in tf_children(n):
+        tgt = n
+        for i in step[:-1]:
+            tgt = tgt[i]
+        tgt[step[-1]] = tf_map(c, fn)
+    return fn(n)
+
+
+def tf_label(n, names=None):
+    """give the placeholder names `?` the names a, b, c, a, … in reading order"""
+    names = names or TF_ATOMS
+    count = [0]
+
+    def fn(m):
+        if m[0] == "n" and m[1] == "?":
+            count[0] += 1
+            return ["n", names[(count[0] - 1) % len(names)]]
+        return m
+    return tf_map(n, fn)
+
+
+def tf_skeleton(n):
+    def fn(m):
+        if m[0] == "n":
+            return ["n", "_"]
+        if m[0] == "call":
+            return ["call", m[1], m[2], [["k", v] for _, v in m[3]], m[4]]
+        return m
+    return tf_render(tf_map(n, fn))
+
+
+def _compositions(total, parts):
+    if parts == 1:
+        yield (total,)
+        return
+    for first in range(1, total - parts + 2):
+        for rest in _compositions(total - first, parts - 1):
+            yield (first, *rest)
+
+
+_TF_ELEMS = {}
+
+
+def tf_elems(w):
+    """every atom / parenthesised form of weight exactly w (a name and a pair of parentheses weigh
+    1 each): names, `()`, groups `(e)`, 1-tuples `(e,)`, n-tuples with and without trailing comma,
+    nested to any depth the weight allows"""
+    if w in _TF_ELEMS:
+        return _TF_ELEMS[w]
+    if w == 1:
+        out = [["n", "?"], ["t", [], False, True]]
+    else:
+        out = []
+        for e in tf_elems(w - 1):
+            out.append(["t", [e], False, True])
+            out.append(["t", [e], True, True])
+        for k in range(2, w):
+            for comp in _compositions(w - 1, k):
+                for es in itertools.product(*(tf_elems(c) for c in comp)):
+                    for tr in (False, True):
+                        out.append(["t", list(es), tr, True])
+    _TF_ELEMS[w] = out
+    return out
+
+
+def tf_elems_upto(w):
+    return [e for i in range(1, w + 1) for e in tf_elems(i)]
+
+
+def tf_top(w):
+    """every top-level string of weight exactly w: the parenthesised forms, and the displays
+    without parentheses `e,`  `e1, e2`  `e1, e2,` …"""
+    yield from tf_elems(w)
+    for k in range(1, w + 1):
+        for comp in _compositions(w, k):
+            for es in itertools.product(*(tf_elems(c) for c in comp)):
+                if k > 1:
+                    yield ["t", list(es), False, False]
+                yield ["t", list(es), True, False]
+
+
+def tf_contexts(e, small):
+    """the element `e` as call argument, keyword argument, subscript index, aggregate, branch or
+    condition of a conditional, operand of a comparison (`small`: the other operand)"""
+    def bare(es, tr):
+        return ["t", list(es), tr, False]
+    for tr in (False, True):
+        yield ["call", TF_FN, [e], [], tr]
+        yield ["call", TF_FN, [e, small], [], tr]
+        yield ["call", TF_FN, [small, e], [], tr]
+        yield ["call", TF_FN, [], [["k", e]], tr]
+        yield ["call", TF_FN, [small], [["k", e]], tr]
+        yield ["idx", TF_AGG, bare([e], True) if tr else e]
+        yield ["idx", TF_AGG, bare([e, small], tr)]
+        yield ["idx", TF_AGG, bare([small, e], tr)]
+    yield ["call", TF_FN, [e], [["k", small]], False]
+    yield ["idx", ["idx", TF_AGG, e], small]
+    if e[0] == "t":
+        yield ["idx", e, ["n", "0"]]
+    yield ["if", e, small, small]
+    yield ["if", small, e, small]
+    yield ["if", small, small, e]
+    for op in ("==", "<"):
+        yield ["cmp", op, e, small]
+        yield ["cmp", op, small, e]
+
+
+def tf_wrap(c, small):
+    """a context again as an element of a tuple, with and without parentheses / trailing comma"""
+    yield ["t", [c], True, True]
+    yield ["t", [c], True, False]
+    yield ["t", [c, small], False, True]
+    yield ["t", [small, c], True, False]
+
+
+def tf_random(rng, depth):
+    def gen(d, ctx):
+        k = rng.random()
+        if d <= 0 or k < 0.2:
+            return ["n", "?"] if rng.random() < 0.8 else ["t", [], False, True]
+        if k < 0.6:
+            es = [gen(d - 1, "elem") for _ in range(rng.randint(1, 3))]
+            return ["t", es, rng.random() < 0.5, ctx == "elem" or rng.random() < 0.7]
+        if k < 0.75:
+            args = [gen(d - 1, "elem") for _ in range(rng.randint(0, 2))]
+            kws = [[kw, gen(d - 1, "elem")] for kw in rng.sample(["k", "l"], rng.randint(0, 2))]
+            return ["call", TF_FN, args, kws, rng.random() < 0.4]
+        if k < 0.87:
+            return ["idx", TF_AGG, gen(d - 1, "index")]
+        if k < 0.94:
+            return ["if", gen(d - 1, "elem"), gen(d - 1, "elem"), gen(d - 1, "elem")]
+        return ["cmp", rng.choice(["==", "<", "!="]), gen(d - 1, "elem"), gen(d - 1, "elem")]
+    return gen(depth, "top")
+
+
+def tuple_family(rng, tier):
+    """nodes of the family: exhaustive up to a small weight, every context around every small
+    element, contexts as elements again, and random larger ones"""
+    small = ["n", "?"]
+    wtop, wctx, wwrap, nrand = (4, 3, 2, 250) if tier == "quick" else (6, 4, 3, 6000)
+    for w in range(1, wtop + 1):
+        for n in tf_top(w):
+            yield tf_label(n), "tuple-exh"
+    if tier == "quick":
+        for n in rng.sample(list(tf_top(wtop + 1)), 150):
+            yield tf_label(n), "tuple-sample"
+    for e in tf_elems_upto(wctx):
+        for c in tf_contexts(e, small):
+            yield tf_label(c), "tuple-context"
+    for e in tf_elems_upto(wwrap):
+        for c in tf_contexts(e, small):
+            for t in tf_wrap(c, small):
+                yield tf_label(t), "tuple-context-nested"
+    for _ in range(nrand):
+        yield tf_label(tf_random(rng, rng.randint(2, 4))), "tuple-random"
+
+
+def tuple_payloads(rng, tier):
+    seen = set()
+    for n, kind in tuple_family(rng, tier):
+        s = tf_render(n)
+        if s not in seen:
+            seen.add(s)
+            yield {"text": s, "kind": kind, "node": n}
+    for s in TF_ELSE:
+        yield {"text": s, "kind": "tuple-else"}
+
+
+def tf_shrinks(n):
+    """smaller trees of the family: a child in place of the whole, and — at every position — an
+    element dropped, a trailing comma dropped, a pair of parentheses dropped, a group unwrapped,
+    an argument dropped, a subtree replaced by a name"""
+    for _, c in tf_children(n):
+        yield c
+    k = n[0]
+    if k == "t":
+        _, elems, trailing, parens = n
+        for i in range(len(elems)):
+            rest = elems[:i] + elems[i + 1:]
+            yield ["t", rest, trailing and bool(rest), parens or not rest]
+        if trailing and len(elems) >= 2:
+            yield ["t", elems, False, parens]
+        if len(elems) == 1:
+            yield elems[0]
+    elif k == "call":
+        _, fn, args, kws, trailing = n
+        for i in range(len(args)):
+            yield ["call", fn, args[:i] + args[i + 1:], kws, trailing]
+        for i in range(len(kws)):
+            yield ["call", fn, args, kws[:i] + kws[i + 1:], trailing]
+        if trailing:
+            yield ["call", fn, args, kws, False]
+    if k != "n":
+        yield ["n", "a"]
+    for step, c in tf_children(n):
+        for c2 in tf_shrinks(c):
+            import copy
+            m = copy.deepcopy(n)
+            tgt = m
+            for i in step[:-1]:
+                tgt = tgt[i]
+            tgt[step[-1]] = c2
+            yield m
+
+
+def tf_minimise(n, fails, budget=600):
+    """greedy: the first strictly shorter tree that still `fails`"""
+    steps = 0
+    improved = True
+    while improved and steps < budget:
+        improved = False
+        size = len(tf_render(n))
+        for cand in tf_shrinks(n):
+            steps += 1
+            if steps > budget:
+                break
+            if len(tf_render(cand)) < size and fails(cand):
+                n = cand
+                improved = True
+                break
+    return n
+
+
+def mismatch_kind(s):
+    """(None, None) if pymbolic.parse(s) is Python's tree, else ("differs" | "rejected", text)"""
+    from pymbolic import parse
+    try:
+        want = expected(s)
+    except (SyntaxError, NotShared, RecursionError):
+        return None, None
+    try:
+        got = parse(s)
+    except Exception as ex:
+        return "rejected", f"parse({s!r}) raises {type(ex).__name__}, Python groups it as {want!r}"
+    if flatten_assoc(got) != want:
+        return "differs", f"parse({s!r}) = {got!r}, Python groups it as {want!r}"
+    return None, None
+
+
+def tuple_key(n, kind, fails):
+    """(minimal failing tree, key): `py-tuple:<skeleton>` / `py-tuple-rejected:<skeleton>` when the
+    minimal tree is made of tuples, parentheses, calls, subscripts and comparisons only; the
+    operator classification of the other streams when a conditional is needed for the failure"""
+    m = tf_minimise(n, fails)
+    if any(x[0] == "if" for x in tf_walk(m)):
+        return m, classify(tf_render(m))
+    return m, kind + ":" + tf_skeleton(m)
+
+
+def tuple_tree_oracle(pl):
+    kind, msg = mismatch_kind(pl["text"])
+    if kind is None:
+        return None
+    m, key = tuple_key(pl["node"], "py-tuple" if kind == "differs" else "py-tuple-rejected",
+                       lambda c: mismatch_kind(tf_render(c))[0] == kind)
+    text = tf_render(m)
+    return Failure(key, mismatch_kind(text)[1] + (f" (shrunk from {pl['text']!r})" if text != pl["text"] else ""),
+                   {"text": text, "kind": pl["kind"], "node": m})
+
+
+class _Indexable:
+    def __getitem__(self, k):
+        return ("x[]", k)
+
+
+def _tf_f(*args, **kw):
+    return ("f()", args, tuple(sorted(kw.items())))
+
+
+TF_VALUES = (-1, 0, 2)
+
+
+def tf_envs(full=True):
+    """the box a, b, c ∈ {-1, 0, 2}; for a string without conditional and comparison (the value is
+    a nesting of the names' values, whatever they are) two environments with distinct values"""
+    box = itertools.product(TF_VALUES, repeat=3) if full else [(-1, 0, 2), (2, -1, 0)]
+    for va, vb, vc in box:
+        yield {"a": va, "b": vb, "c": vc, "d": 3, "f": _tf_f, "x": _Indexable()}
+
+
+def same_value(u, v):
+    """equality with exact nesting and exact types: (1, 2) is not ((1, 2),), True is not 1"""
+    if isinstance(u, tuple) or isinstance(v, tuple):
+        return (isinstance(u, tuple) and isinstance(v, tuple) and len(u) == len(v)
+                and all(same_value(x, y) for x, y in zip(u, v)))
+    return type(u) is type(v) and u == v
+
+
+def value_mismatch(s, importer=False):
+    """None, or a description of an environment where `eval(s)` is not the value of the tree that
+    `parse(s)` (or the importer applied to Python's parse) evaluates to.  Environments on which
+    Python's own evaluation raises make no claim."""
+    from pymbolic import evaluate, parse
+    try:
+        pytree = ast.parse(s, mode="eval")
+        code = compile(pytree, "<tuple-family>", "eval")
+        if importer:
+            from pymbolic.interop.ast import ASTToPymbolic
+            tree = ASTToPymbolic()(pytree.body)
+        else:
+            tree = parse(s)
+    except Exception:
+        return None          # rejection / unsupported nodes: the business of the tree oracles
+    for env in tf_envs(any(isinstance(n, (ast.IfExp, ast.Compare)) for n in ast.walk(pytree))):
+        try:
+            want = eval(code, {"__builtins__": {}}, dict(env))
+        except Exception:
+            continue
+        try:
+            got = evaluate(tree, dict(env))
+        except Exception as ex:
+            got = ex
+        if isinstance(got, Exception) or not same_value(got, want):
+            shown = {k: env[k] for k in "abc"}
+            return (f"eval({s!r}) = {want!r} at {shown}, the tree of "
+                    f"{'the importer' if importer else 'parse'} {tree!r} evaluates to {got!r}")
+    return None
+
+
+class TupleValues(Stream):
+    """the tuple family by VALUE (oracle only): `eval` of the string on a small box of
+    environments (a, b, c over {-1, 0, 2}; `f` records its arguments, `x[…]` its index) is, with
+    exact nesting and exact types, what the tree returned by `parse` evaluates to, and what the
+    tree of the Python-AST importer evaluates to"""
+    name = "tuple-values"
+    has_model = False
+
+    def cases(self, rng, tier):
+        yield from tuple_payloads(rng, tier)
+
+    def run_impl(self, pl):
+        return "(oracle-only)"
+
+    def oracle(self, pl):
+        s = pl["text"]
+        for importer, family in ((False, "py-tuple-value"), (True, "importer-tuple-value")):
+            msg = value_mismatch(s, importer)
+            if msg is None:
+                continue
+            if "node" not in pl:
+                return Failure(classify(s) if not importer else family + ":" + s, msg, pl)
+            if not importer and mismatch_kind(s)[0] == "differs":
+                # the tree already differs from Python's: same classification as the tree oracle
+                f = tuple_tree_oracle(pl)
+                return Failure(f.key, msg + "; " + f.detail, f.payload)
+            m, key = tuple_key(pl["node"], family,
+                               lambda c: value_mismatch(tf_render(c), importer) is not None)
+            text = tf_render(m)
+            return Failure(key, value_mismatch(text, importer),
+                           {"text": text, "kind": pl["kind"], "node": m})
+        return None
+
+    def nontrivial_key(self, pl, model, impl):
+        return pl["text"]
+
+    def stats(self, pl, mo, io, acc):
+        acc[pl["kind"]] = acc.get(pl["kind"], 0) + 1
+
+# }}}
+
+
 PROP = Prop(
     id="C07",
     title="The parser reads the syntax it shares with Python the way Python does",
@@ -803,6 +1250,9 @@ class TableParse(Stream):
                   "(())", "a, (b, c)", "(a, b) + c", "x if (a, b) else c", "a if b else c, d"]:
             for mp in (0, 5, 11):
                 yield {"text": s, "minprec": mp, "kind": "edge"}
+        # the tuple family (nested tuples, trailing commas, tuples as arguments / indices)
+        for pl in tuple_payloads(rng, tier):
+            yield {"text": pl["text"], "minprec": rng.choice([0, 0, 0, 5, 6, 10, 11]), "kind": "tuple"}
 
     def request(self, pl):
         toks = lex_tokens(pl["text"])
@@ -883,6 +1333,7 @@ class TableParse(Stream):
 PROP.lean_targets.append("PV.Properties.C07Table")
 PROP.extractors.append(extract_parser_table)
 PROP.streams.append(TableParse())
+PROP.streams.append(TupleValues())
 PROP.trusted_base.append(
     "extract/parser.py (the reader of pymbolic/parser.py) and the meaning given to the LexIterator "
     "primitives / node constructors in PV/Model/ParserTable.lean, tied by the table-parse stream")
